@@ -6,6 +6,18 @@ ALL = ["C%02d" % i for i in range(1, 20)]
 
 # id -> (level category, technique, level text, level note, design ref)
 CHECKS = {
+ "C01": ("exploration", "runtime monitor: round-trip oracle at the stream API in isolated child processes + independent container parser + recovered-panic and NormalizeFrequencies hooks",
+         "About 2 500 (quick) / 40 000 (thorough) generated (configuration, data shape, size, hint mode, Write partition, decoder job count) cases are pushed through the real Writer and Reader in child processes; the oracle is bytes-in == bytes-out followed by io.EOF, no error after construction, and an independent parse of the produced container (block count, header fields, end marker). The recover hook names the faulting function of any swallowed panic; the normalize hook checks every histogram the codecs produce in situ. Exploration: the input/config space is sampled with a covering design, not enumerated.",
+         "Trusts harness/container (independent parser), harness/gen, and the hook files v2/io/verif_on.go, v2/entropy/verif_on.go. Largest block run: 4 MiB+16 quick, 160 MiB thorough; 1 GiB blocks are not run.", "DESIGN.md §3 C01"),
+ "C12": ("exploration", "runtime monitor: result + bit-consumption oracle (sentinel, Written()/Read() counters) on the entropy codec API; in-situ NormalizeFrequencies hook",
+         "Each of the 9 entropy codecs encodes generated blocks (lengths 0..4 MiB+1 straddling every chunk size, 17 shapes incl. the frequency-scaling stress families) into a real bitstream after a byte-aligned prefix, followed by a 64-bit sentinel; decoding must return the block, consume exactly the bits written and leave the sentinel readable; a second codec instance is run back-to-back in the same bitstream. Exploration over sampled blocks.",
+         "Context map built like the stream layer's (entropy, blockSize, size, bsVersion 6). Heavy coders capped at 20 KB (quick) / 1 MiB (thorough).", "DESIGN.md §3 C12"),
+ "C13": ("exploration", "runtime monitor: forward/inverse oracle with pipeline-faithful buffers and contexts, in isolated child processes (panic site attribution)",
+         "Each of the 19 transforms runs Forward on generated blocks with the parameter map the Writer builds - fresh, after the block-magic hint, or after a real earlier stage ran on the same map - into a destination of exactly MaxEncodedLen (or with slack); the monitor checks no fault, output <= MaxEncodedLen, input untouched on decline, and Inverse into the decompressor's buffer size restores the block. Children isolate faults from helper goroutines. Exploration over ~15 000 (quick) calls.",
+         "Data-type hints are produced only by real stages or by the magic classification re-implemented from internal/Magic.go; internal.DataType values are built by reflection from a leaked value.", "DESIGN.md §3 C13"),
+ "C16": ("exploration", "runtime monitor: post-condition oracle on direct calls (exhaustive small histograms + directed families + random) and in-situ hook",
+         "entropy.NormalizeFrequencies is called on all histograms with <= 3 present symbols and counts <= 24 (quick) / 40 (thorough) x 9 scales (exhaustive part), on directed k-rare + m-dominant / flat / ramp families and on 10^5 (quick) / 2x10^6 (thorough) random histograms; the oracle checks sum == scale, present symbols > 0, absent == 0, returned size and increasing alphabet. Exploration (the exhaustive part covers only the small-alphabet sub-space).",
+         "Histograms satisfy the function's contract (totalFreq == sum, total <= 2^27).", "DESIGN.md §3 C16"),
  "C14": ("exploration", "runtime monitor: lock-step reference model (bit vector) over generated operation programs",
          "Every program (systematic sweep of alignment x array length x distance to the flush boundary x buffer size, plus random programs) is executed on the real DefaultOutputBitStream/DefaultInputBitStream while a trivially correct bit-vector model is stepped alongside; sink image, Written()/Read() after every step, read-back values (mirrored and re-segmented) and refusal after Close are compared. Held = no deviation on the programs run; it is sampling of an infinite program space, hence exploration.",
          "Trusts the 40-line bit-vector model in harness/container (Bits.Put/Get) and full-read sources (short reads are C06).", "DESIGN.md §3 C14"),
